@@ -120,6 +120,11 @@ def build_raw(c):
         kw = {"plates": (pl,)} if any(v in plated for v in f) else {}
         if kw:
             fn = BatchFn(plate["n"])
+        det = c.get("det")
+        if det and det["factor"] == k:
+            # one variable of this factor is its deterministic output (in all_variables, not in variables)
+            f = [v for v in f if v != det["var"]]
+            kw = dict(kw, factor_out=variables[det["var"]])
         factors.append(Factor(fn, *[variables[v] for v in f], name="f%d" % k,
                               arg_names=["a%d" % j for j in range(len(f))], **kw))
     graph = FactorGraph(factors)
@@ -362,8 +367,9 @@ class LogHistory(EPHistory):
         return super().__call__(factor, approx, status)
 
 
-def make_history(factors, stop):
-    hist = LogHistory(kl_tol=None, evidence_tol=None)
+def make_history(factors, stop, default=False):
+    # default=True: the EPHistory that optimise() creates when none is passed (kl_tol = 0.1 terminates the run)
+    hist = LogHistory() if default else LogHistory(kl_tol=None, evidence_tol=None)
     if stop is not None:
         sf, sk = stop
         target = factors[sf]
@@ -388,7 +394,7 @@ def log_obs(hist, factors, index):
         i = factors.index(factor)
         out.append({"f": i, "success": bool(status.success), "updated": bool(status.updated),
                     "token": status.result, "msg": nat(approx.factor_mean_field[factor], index),
-                    "global": nat(approx.mean_field, index),
+                    "global": nat(approx.mean_field, index), "global_ms": bits(approx.mean_field, index),
                     "state": state_obs(approx, factors, index), "bits": state_bits(approx, factors, index)})
     return out
 
@@ -495,7 +501,7 @@ def run_decl(c):
     if not r:
         return out
     rec = Recorder(r["scripts"], factors, priors, index)
-    hist = make_history(factors, r.get("stop"))
+    hist = make_history(factors, r.get("stop"), default=r.get("history") == "default")
     if r["mode"] == "optimise":
         res = top.optimise(rec, ep_history=hist, max_steps=r["max_steps"])
         final = res.updated_ep_mean_field
